@@ -621,6 +621,8 @@ pub fn run(args: &Args, out: &mut Out) {
     }
     // 1. the hand-written corpus: exhaustive boundaries x full grid
     for (i, text) in CORPUS.iter().enumerate() {
+        // thorough runs are sharded (seed = VERIF_SEED*1000 + shard): the corpus is identical in every shard, run it in shard 0 only
+        if args.thorough && args.seed % 1000 != 0 { break; }
         let mut r = rng.fork();
         // the quick tier runs the full grid on two corpus entries (rotating with the seed); the others rotate configs per boundary
         let full = args.thorough || (i as u64 + args.seed) % 14 == 0;
